@@ -226,6 +226,8 @@ class ConfigGen:
                 else:
                     for i, ref in enumerate(refs):
                         cfg.add(p + (Seg('appender ref', i), Seg('ref')), ref)
+                        if r.random() < 0.2:
+                            cfg.add(p + (Seg('appender ref', i), Seg('type')), 'AppenderRef')
                         if r.random() < 0.5:
                             cfg.add(p + (Seg('appender ref', i), Seg('level')), r.choice(LEVELS))
             if t == 'AsyncLogger' or (t == 'RollingFile' and r.random() < 0.5):
@@ -245,6 +247,18 @@ class ConfigGen:
                     cfg.add(p + S('separate'), r.choice(GOOD_BOOL))
                 if r.random() < 0.5:
                     cfg.add(p + S('max age'), r.choice(['1', '168']))
+        if r.random() < 0.12:
+            # a long indexed list (more than ten entries: index order is numeric, not lexicographic)
+            n = r.choice([11, 12, 13, 21])
+            for i in range(n):
+                cfg.add(S('appender', Seg(['m%d' % i]), 'type'), 'Discard')
+            p = S('logger', Seg(['biglist']))
+            cfg.add(p + S('type'), r.choice(['Logger', 'AsyncLogger']))
+            cfg.add(p + S('tags'), '_c15big')
+            for i in range(n):
+                cfg.add(p + (Seg('appender ref', i), Seg('ref')), 'm%d' % i)
+                if r.random() < 0.3:
+                    cfg.add(p + (Seg('appender ref', i), Seg('level')), r.choice(LEVELS))
         if r.random() < 0.2:
             cfg.add(S('enable caller'), r.choice(GOOD_BOOL).strip())
         if r.random() < 0.2:
@@ -290,7 +304,7 @@ class ConfigGen:
             return {'appender': 'x'}, 'empty'
         k = r.choice(keys)
         ck = camel(k)
-        kind = r.choice(['delete', 'value', 'value', 'value', 'key', 'conflict', 'dangling', 'type', 'extra'])
+        kind = r.choice(['delete', 'value', 'value', 'value', 'key', 'conflict', 'dangling', 'type', 'elemtype', 'extra'])
         if kind == 'delete':
             del m[k]
             return m, 'delete ' + k
@@ -335,10 +349,20 @@ class ConfigGen:
             m[k + '.sub'] = 'x'
             return m, 'conflict-below %r' % k
         if kind == 'dangling':
-            for kk in keys:
-                if camel(kk).endswith('.ref'):
-                    m[kk] = r.choice(['missing', m[kk].upper(), m[kk] + ' x'])
-                    return m, 'dangling ' + kk
+            refs = [kk for kk in keys if camel(kk).endswith('.ref')]
+            if refs:
+                kk = r.choice(refs)
+                m[kk] = r.choice(['missing', m[kk].upper(), m[kk] + ' x'])
+                return m, 'dangling ' + kk
+            return m, 'none'
+        if kind == 'elemtype':
+            # the plugin type of one entry of an element list (any index), or of a single element
+            import re
+            elems = sorted({re.sub(r'\.[^.\]]+$', '', kk) for kk in keys if re.search(r'(?i)appender[-_]?ref(\[\d+\])?\.[^.]+$', kk)})
+            if elems:
+                e = r.choice(elems)
+                m[e + '.type'] = r.choice(['Bogus', 'AppenderRef', 'appenderRef', '', 'Console'])
+                return m, 'elemtype %s := %r' % (e, m[e + '.type'])
             return m, 'none'
         if kind == 'type':
             for kk in r.sample(keys, len(keys)):
